@@ -6,7 +6,11 @@ CHECK = {
     "technique": "kernel-evaluated constant theorems over source-parsed constants + limb-level Montgomery proofs (omega carry chains, Mathlib ModEq) + Lucas primality certificate; "
                  "for-all-lists theorems for the batched entry points (fold = sum/product mod p by induction; Montgomery's batch-inversion trick = element-wise inversion over any field by induction + grind; "
                  "closed forms of repeated in-place operations); magnitude/normalisation model of the k256 wrapper over a source-parsed table of its method bodies; "
-                 "ring-level proof of the p = 5 mod 8 square root; value, limb and long-list correspondence vs Nat arithmetic",
+                 "ring-level proof of the p = 5 mod 8 square root and of its branch structure; "
+                 "Bernstein-Yang inversion: executable mirrors at chunk level (62-bit two's-complement carry chains) and at value level, loop invariants by induction over the fuel "
+                 "(matrix invariant of jump: rows annihilate (f, g) mod 2^62 and det = 2^62; exactness of fg/de; d*x = f*A, e*x = g*A mod M preserved) with Mathlib's ring/linear_combination; "
+                 "Jacobi: executable mirror of approximate/inner loop/jacobinary and bit-level lemmas for the sign accumulator; carry-aware (curve25519) Montgomery reduction/multiplication/addition "
+                 "proved for every odd modulus below 2^256 (omega carry chains); value, limb, long-list and LOOP-STATE correspondence vs the real code",
     "rule": "prime fields {BLS12-381 Fq, Fp, Jubjub Fr, Curve25519 Fp/Scalar, secp256k1 Fp/Fq, BN254 Fq/Fr} x operand classes "
             "{0, 1, 2, 3, -1, -2, (p±1)/2, R, R^2, R^3, -R, limbs all-ones, 2^64k-1/2^64k/2^64k+1, band [p-2^64, p), random} "
             "x all pairs for add/sub/mul, all unary ops, pow with boundary exponents (also 5..64-limb exponents), decoders at and around the modulus, "
@@ -17,7 +21,14 @@ CHECK = {
             "interleaved, up to 5000 steps / 10000 in the thorough tier, only the final value is read); un-normalised secp256k1 wrapper values "
             "(results of invert/sqrt/sqrt_ratio/conditional_select/random, and lazily accumulated k256 elements of magnitude 2, 3, 8 injected through From<k256::FieldElement> - regression of the fixed finding k256.Fp:from-unnormalized) x every predicate/comparison/encoder/operator; "
             "limb-level: raw (also non-canonical) limb vectors x all pairs for the pure-Rust Montgomery code; towers: coefficient vectors over boundary classes, "
-            "Sum/Product of the six extension types over lists up to 5000 vs the fold. Non-trivial = involves a random or band operand, or a list/chain; "
+            "Sum/Product of the six extension types over lists up to 5000 vs the fold; "
+            "Bernstein-Yang inverter BYInverter<L> (L = 6 with the moduli of curve25519 Fp [the instance of Fp::invert, adjusters R2, R, 1], BLS12-381 Fq, Jubjub Fr, secp256k1 Fp and a composite; L = 8 with BLS12-381 Fp; L = 2 with 59-bit and composite moduli) "
+            "x arguments {0, 1, 2, 3, m-1, m-2, (m±1)/2, R, R^2, m, m+1, 2m±1, all-ones, 2^k, 2^k±1, 2^62k, 2^62k-1, the INVERSES of 2^k and 2^k±1 (results with extreme limbs), multiples of the factors of the composite moduli, "
+            "the arguments needing the most batches among 3000 (quick) / 60000 (thorough) seeded tries, random} with EVERY loop state (delta, matrix, f, g, d, e) after each batch compared chunk by chunk (request `by invert`) and as signed integers (`byv invert`); "
+            "the private jump / fg / de / norm / new(convert, inv) driven directly on boundary chunks, deltas in {0, ±1, 2, 5, ±61, ±62, ±63, ±700, random} and matrices incl. the extreme ones; "
+            "jacobi::<L> for curve25519 Fp (L = 5), BLS12-381 Fq (L = 5), Fp (L = 7), composite and small denominators x numerators {0, 1, 2, 3, 4, d-1, d-2, (d±1)/2, 2^k, 2^k-1, d-2^k, squares, random, "
+            "numerators whose approximations hide the difference to d, short numerators with > 32 leading zeros in the top chunk, common factors >= 2^64} with every outer-iteration state (n, d, t, a, b, u, v) compared; approximate and jacobinary driven directly. "
+            "Non-trivial = involves a random or band operand, or a list/chain, or a Bernstein-Yang/Jacobi request; "
             "distinctness by hash of the request line",
     "explanation": "Lean theorems: every published constant satisfies its defining equation (kernel evaluation over constants "
                    "re-parsed from the Rust sources on every run); the limb-level Montgomery reduce/mul/add/sub/neg/from_u512 of the "
@@ -26,7 +37,12 @@ CHECK = {
                    "(Montgomery's trick, mirrored loop by loop) equals element-wise inversion over any field for every list; repeated in-place add/mul/double/square "
                    "have their closed forms; every method body of k256/base_field.rs (re-parsed on every run) keeps the magnitude <= 1 / predicates-on-normalised-values "
                    "discipline (the constructor From<k256::FieldElement> normalises a caller-supplied lazy element of any magnitude since the fix /repo 0cce575; the pinned body is shown unsafe by pinned_k256_from_unnormalized_defect), and the normalising Sum never exceeds magnitude 1 while a lazy Sum fails exactly from 2048 terms; "
-                   "the curve25519 square root squares to its input given Euler's criterion and the kernel-checked constant 4*T_SQRT^4 = -1. "
+                   "the curve25519 square root squares to its input given Euler's criterion and the kernel-checked constant 4*T_SQRT^4 = -1, returns None exactly when a0 = -1 and Some(0) for 0; the Jubjub square root returns only values that square to the input; "
+                   "the carry-aware Montgomery reduce/mul/add/from_uniform_bytes of curve25519::Fp equal arithmetic mod p for all limb values (any odd modulus < 2^256, no 2M <= 2^256 restriction), R2/R3 kernel-checked; "
+                   "Bernstein-Yang inversion (ff_ext/inverse.rs): for every input of jump the returned matrix annihilates (f, g) modulo 2^62 and has determinant 2^62; fg divides exactly and de adds the multiple of M that makes its combination divisible by 2^62, for every matrix; "
+                   "one batch preserves d*x = f*A, e*x = g*A (mod M); hence (invert_spec_partial) whenever the loop ends with g = 0, f = ±1 the result r satisfies r*x = A (mod M), and norm maps (-2M, M) into [0, M); the inverse-mod-2^62 constant of the curve25519 instance is kernel-checked. "
+                   "NOT proved: termination of the Bernstein-Yang loop with f = ±1 (hypothesis: the model returns a value), the range (-2M, M) of d/e (checked by the harness on every logged state of the real code), and the equality of the chunk-level carry chains with the value level (both are compared with every real loop state). "
+                   "Jacobi symbol (ff_ext/jacobi.rs): the four updates of the sign accumulator flip bit 1 exactly under the conditions of the supplements and of reciprocity (jacobi_sign_rules); that the whole algorithm computes the Jacobi symbol is NOT proved - it is compared, state by state, with the model and checked against a BigUint Jacobi symbol and Euler's criterion in the harness. "
                    "The model is tied to the code by running every public field operation of every exported field type — including the batched entry points on lists "
                    "that cross k256's magnitude budget (2047) and limb wrap (~4096), and in-place chains without intermediate serialisation — and comparing with the model "
                    "value by value, limb by limb and list by list; each batched answer is also checked against a BigUint model inside the harness so that a failure is reported with its failing input. "
@@ -36,18 +52,24 @@ CHECK = {
         "blst field routines (C/assembly), k256, curve25519-dalek and halo2derive-generated arithmetic: specified as arithmetic mod p, checked by correspondence only; "
         "k256's magnitude rules (field_impl.rs debug layer) are hand-modelled in Model/C10/Batch.lean and exercised through the debug assertions the harness profile keeps on",
         "ff-0.13 BatchInvert/BatchInverter: hand-mirrored in Lean (batchInvGen), compared on every list class/length",
+        "Model/C10/BY.lean and Model/C10/Jacobi.lean are hand-written mirrors of ff_ext/inverse.rs and ff_ext/jacobi.rs; the tie is the loop-state correspondence through the observe-only logs of /repo 66a4bbc "
+        "(verif_by_log_*, verif_jacobi_log_*, wrappers verif_jump/verif_fg/verif_de/verif_norm/verif_parts/verif_jacobinary/verif_approximate); convert is modelled by value (bit regrouping), the i64 matrix entries as exact integers "
+        "(the harness profile has overflow checks on)",
         "python translators translators/c10_constants.py (prints the literals of the Rust sources; cross-checked against the running constants by `const` lines) "
         "and translators/c10_k256_wrapper.py (regex classification of the method bodies of k256/base_field.rs; anything unrecognised is emitted as `unknown`)",
     ],
     "assumptions": [
         "primality of every modulus other than the BLS12-381 scalar modulus is not proved (hypothesis where a theorem needs it; Euler's criterion is a hypothesis of c25519_sqrt_spec_partial)",
         "batch_invert_spec is stated over an abstract field; its instance modulo p is the executable model compared with the implementation, not a theorem (needs primality)",
+        "invert_spec_partial assumes that the Bernstein-Yang loop ends (g = 0, f = ±1) within the fuel; the iteration bound is not proved",
     ],
     "level_text": "Kernel-checked Lean theorems about source-parsed constants, an executable limb-level model of the pure-Rust Montgomery arithmetic, tower formulas and codecs "
                   "(all limb values / all field elements), the batched entry points (Sum/Product/batch inversion for all lists, in-place chains of any length) and the normalisation discipline of the "
                   "secp256k1 wrapper (method bodies re-parsed from the source), with the model checked against every exported field type on every run, including long lists and chains that cross the "
-                  "lazy-reduction thresholds of the wrapped crates",
+                  "lazy-reduction thresholds of the wrapped crates; Bernstein-Yang inversion and the Jacobi symbol (ff_ext) are inside the model: executable mirrors whose every loop state is compared with the real code, "
+                  "the batch/matrix invariants and the partial specification of invert proved, the sign rules of jacobi proved; the carry-aware Montgomery code of curve25519::Fp proved like the other pure-Rust fields",
     "level_note": "Trusted: Lean kernel, translators, harness and driver; blst/k256/dalek/halo2derive internals are modelled as arithmetic mod p (k256 additionally by its magnitude rules) and compared on "
-                  "boundary classes and list lengths, not verified; Bernstein-Yang inversion/Jacobi (ff_ext) are compared as black boxes (invert, legendre) only; primality of moduli other than the BLS scalar is assumed",
+                  "boundary classes and list lengths, not verified; Bernstein-Yang: termination and the (-2M, M) range are hypotheses / harness oracles, the chunk level is tied to the proved value level by correspondence only; Jacobi: only the sign rules are proved, the result is compared with an independent BigUint computation; "
+                  "BLS12-381 Fq::sqrt (ff's Tonelli-Shanks helper) is compared as a black box; primality of moduli other than the BLS scalar is assumed (Euler's criterion is a hypothesis of the square-root theorems)",
     "timeout": {"quick": 600, "thorough": 3000, "search": 900},
 }
